@@ -189,19 +189,29 @@ class FrameInterp:
 
     def eval(self, fn, e, env, depth=0):
         prog = self.prog
+        if isinstance(e, ast.Constant) and isinstance(e.value, str):
+            return ('str', e.value)
         if isinstance(e, ast.Name):
-            return env.get(e.id)
+            if e.id in env:
+                return env.get(e.id)
+            c = prog.constant(prog.resolve(fn.module, e))
+            return ('str', c.value) if isinstance(c, ast.Constant) and isinstance(c.value, str) else None
+        if isinstance(e, (ast.List, ast.Tuple)):
+            vals = [self.eval(fn, x, env, depth) for x in e.elts]
+            return ('seq', vals) if all(v is not None for v in vals) else None
         if isinstance(e, ast.Call):
             nm = prog.resolve(fn.module, e.func)
             if isinstance(e.func, ast.Attribute) and e.func.attr in ('copy', 'reset_index', 'dropna') :
                 return self.eval(fn, e.func.value, env, depth)
             if nm in ('pandas.DataFrame', 'copy.deepcopy', 'copy.copy') and e.args:
                 return self.eval(fn, e.args[0], env, depth)
-            if nm == 'pandas.concat' and e.args and isinstance(e.args[0], (ast.List, ast.Tuple)):
+            if nm == 'pandas.concat' and e.args:
+                seq = self.eval(fn, e.args[0], env, depth)
+                if not (isinstance(seq, tuple) and seq and seq[0] == 'seq'):
+                    return None
                 parts = []
-                for el in e.args[0].elts:
-                    v = self.eval(fn, el, env, depth)
-                    if v is None:
+                for v in seq[1]:
+                    if v is None or (v and v[0] in ('str', 'seq')):
                         return None
                     parts.extend(v)
                 ign = kwarg(e, 'ignore_index')
@@ -230,8 +240,10 @@ class FrameInterp:
                     for te, v in zip(t.elts, vals):
                         if isinstance(te, ast.Name):
                             env[te.id] = v
-                elif isinstance(t, ast.Subscript) and isinstance(st.value, ast.Constant) and isinstance(st.value.value, str):
-                    self.label_store(fn, st, t, st.value.value, env)
+                elif isinstance(t, ast.Subscript):
+                    lab = self.eval(fn, st.value, env, depth)
+                    if isinstance(lab, tuple) and lab and lab[0] == 'str':
+                        self.label_store(fn, st, t, lab[1], env)
             elif isinstance(st, ast.Return) and st.value is not None:
                 ret = self.eval(fn, st.value, env, depth) if not isinstance(st.value, ast.Call) or \
                     not (self.prog.resolve(fn.module, st.value.func) or '').startswith('copulas.visualization._generate_scatter') \
@@ -243,10 +255,14 @@ class FrameInterp:
 
     def label_store(self, fn, st, target, label, env):
         base = target.value
-        if isinstance(base, ast.Name) and isinstance(const_value(target.slice), str):
+        col = self.eval(fn, target.slice, env) if isinstance(target.slice, (ast.Name, ast.Constant)) else None
+        col = col[1] if isinstance(col, tuple) and col and col[0] == 'str' else None
+        if isinstance(base, ast.Name) and col is not None:
             v = env.get(base.id)
+            if isinstance(v, tuple) and v and v[0] in ('str', 'seq'):
+                v = None
             self.n_label_stores += 1
-            self.label_col = const_value(target.slice)
+            self.label_col = col
             if v is None:
                 self.events.append(('undecided', fn, st, f'provenance of the labelled frame `{base.id}` not derivable'))
                 return
@@ -355,4 +371,5 @@ def m2(ctx, rep):
         rep.check('M2.axes', helper, pc, const_value(col) == label_col and label_col is not None,
                   f"colour follows the '{label_col}' column", f'colour is {short(col)}, label column is {label_col!r}',
                   construct='color')
-    rep.floor('M2.label', 'label stores in the four scatter/compare helpers', n, 1)
+    if n == 0:
+        rep.undecided('M2.label', prog.func(viz + 'compare_2d'), 'compare_2d', 'no store of a label column recognised in the four scatter/compare helpers', construct='label stores')
